@@ -39,7 +39,7 @@ Theorem C03_partial_nothing_acted_on_after_end :
 Proof. exact ended_rejects. Qed.
 
 (* the hierarchical part on a class of workflows, for every run (proofs/Progress.v; the class of model/Class.v: steps in
-   sequence whose acts are interactive or message acts, any schedule, complete / submit / remove / skip aimed at any task at any moment): no
+   sequence whose acts are interactive or message acts, any schedule, complete / submit / remove / skip / abort aimed at any task at any moment): no
    task is completed while a task whose parent it is is still open, and once the root task is closed every task is.  The
    invariant: the parent of an open task is running, and a parent has at most one open task at a time. *)
 Theorem C03_hierarchy_sequential_interactive :
